@@ -5,7 +5,7 @@
         → <ok|raised:<code>|hang> exp=<n> wire=<n> f<i>=<len reqs>:<saved code|->:<pos>:<closed 0|1> …
     dest                                                        → hex;hex;…
     bad                                                         → badSince, comma separated
-    getfo|get <hex remote> <maxReq> <chunk> <stat code> <open code> <plan d<k>,f<c>,…|-> <size reported by STAT>
+    getfo|get <hex remote> <maxReq> <chunk> <stat code> <open code> <plan d<k>,f<c>,x0(=hang up),…|-> <size reported by STAT>
         → ok <hex local> | raised:<code> | fuel           (sequential model PV/Model/SftpGet.lean)
 -/
 import PV.Model.SftpClient
@@ -43,6 +43,7 @@ def showSt (s : St) : String :=
 def parseOut (t : String) : Option SftpGet.RdOut :=
   if t.startsWith "d" then (t.drop 1).toNat?.map .data
   else if t.startsWith "f" then (t.drop 1).toNat?.map .fail
+  else if t == "x0" then some .drop
   else none
 
 def parsePlan (s : String) : Option (List SftpGet.RdOut) :=
